@@ -170,8 +170,9 @@ None == "none"      \* no OS recorded (nil field / no context value)
 \* nothing of that first run may stick to the VM; "withoswarm": the WithOS option after the VM ran under ANOTHER
 \* host OS with the same parent context; "withosvm": the top-level API risor.Eval with the options WithOS and WithVM
 \* (a VM the host made with vm.NewEmpty); "withosafterctx": the VM's own WithOS after an invocation whose context carried another OS;
+\* "withosshared": the default globals (module objects) are shared with an earlier evaluation under another OS
 \* "withosonce": the OS given once to vm.New, the script run later by RunCode without any option
-Sources == {"withos", "ctx", "ctxwarm", "withoswarm", "withosvm", "ctxover", "withosafterctx", "withosonce"}
+Sources == {"withos", "ctx", "ctxwarm", "withoswarm", "withosvm", "ctxover", "withosafterctx", "withosonce", "withosshared"}
 CtxSources == {"ctx", "ctxwarm", "ctxover"}   \* ctxover: os.WithOS on a context that already carries another OS
 SpawnKinds  == {"go", "spawn"}                    \* vm.cloneCallAsync
 HClonekinds == {"clone", "cclone"}                \* host: vm.Clone() + Call(hostCtx, ..) after Run / from a host callback
@@ -193,7 +194,7 @@ VARIABLES src,       \* how the host supplied its OS
 pvars == <<src, stack, pending, observed>>
 
 HostCtx == IF src \in CtxSources THEN Host ELSE None
-BaseVM  == IF src \in {"withos", "withoswarm", "withosvm", "withosafterctx", "withosonce"} THEN Host ELSE None
+BaseVM  == IF src \in {"withos", "withoswarm", "withosvm", "withosafterctx", "withosonce", "withosshared"} THEN Host ELSE None
 Top     == stack[Len(stack)]
 Path    == [i \in 1..(Len(stack) - 1) |-> stack[i + 1].kind]
 
@@ -203,14 +204,14 @@ CanStart        == stack = <<>>
 CanVMClone      == stack # <<>> /\ ~pending /\ Len(stack) <= MaxDepth
 CanSpawn(k)     == pending /\ k \in SpawnKinds
 CanHostClone(k) == pending /\ k \in HClonekinds /\ (k = "clone" => Len(stack) = 1)   \* "clone": after Run has returned
-CanCloneCall(k) == pending /\ k \in CloneCallKinds /\ src \in {"withos", "withoswarm", "withosvm", "withosafterctx", "withosonce"}
+CanCloneCall(k) == pending /\ k \in CloneCallKinds /\ src \in {"withos", "withoswarm", "withosvm", "withosafterctx", "withosonce", "withosshared"}
 CanImport(k)    == stack # <<>> /\ ~pending /\ k \in ImportKinds /\ Len(stack) <= MaxDepth
 CanCall         == stack # <<>> /\ ~pending
 
 \* Run(hostCtx) on the base VM
 StartWith(s) == /\ CanStart
                 /\ src' = s
-                /\ LET bvm == IF s \in {"withos", "withoswarm", "withosvm", "withosafterctx", "withosonce"} THEN Host ELSE None
+                /\ LET bvm == IF s \in {"withos", "withoswarm", "withosvm", "withosafterctx", "withosonce", "withosshared"} THEN Host ELSE None
                        hc  == IF s \in CtxSources THEN Host ELSE None
                    IN stack' = <<[kind |-> "top", vmos |-> bvm, ctxos |-> InitContext(bvm, hc)]>>
                 /\ UNCHANGED <<pending, observed>>
